@@ -129,8 +129,9 @@ let run (args : (string * string) list) : string =
              let ((xs', _), nrm) = sweep gt alpha v md order (fun _ _ -> false) sol dr in
              add "fixpt" (okf (qeq_bool nrm q0 && List.for_all2 (fun a b -> qeq_bool a b) xs' sol) "sweep-moves-the-solution")
            end;
-           (* the statement S_error_bound (not proved at the level of the executable sweep):
-              evaluated on a pseudo-random write order and staleness pattern, two sweeps *)
+           (* the statement S_error_bound (theorem C18_error_bound) evaluated on the extracted
+              sweep with a pseudo-random write order and staleness pattern, two sweeps: a
+              cross-check of the extraction, not an independent oracle *)
            if n <= 8 && get_int args "arcs" <= 30 then begin
              let st = Random.State.make [| Hashtbl.hash (get args "id"); n |] in
              let perm = Array.init n (fun i -> i) in
